@@ -260,17 +260,14 @@ class BeltStore(Store):
 
             # 5) Remove it from ready_items wherever it currently is
             try:
+                insert_idx = self.ready_items.index(item)
                 self.ready_items.remove(item)
             except ValueError:
                 raise RuntimeError(f"Item {item!r} not found in ready_items during cancel.")
 
             # 6) Compute new insertion index
-            if self.mode == "FIFO":
-                # one slot before the remaining reserved block
-                insert_idx = len(self.ready_items) - len(self.reserved_events) - 1
-            else:  # LIFO
-                # top of stack
-                insert_idx = len(self.ready_items)
+            # the released item goes back to the place it had: the availability order of
+            # ready_items is never disturbed, in FIFO and in LIFO mode
 
             # 7) Re‑insert it
             self.ready_items.insert(insert_idx, item)
@@ -378,11 +375,12 @@ class BeltStore(Store):
             We pick the j-th from top (for LIFO) or bottom (for FIFO)
             but do NOT remove it yet—we just record the exact item.
             """
-            j = len(self.reserved_events)
+            # bind the first (FIFO) / last (LIFO) ready item that no other token holds
+            unreserved = [it for it in self.ready_items if not any(it is r for r in self.reserved_items)]
             if self.mode == "FIFO":
-                item = self.ready_items[j]
+                item = unreserved[0]
             else:  # LIFO
-                item = self.ready_items[-1 - j]
+                item = unreserved[-1]
 
             # record the reservation
             self.reserved_events.append(event)
